@@ -65,4 +65,31 @@ def loop (packet : Bytes) (timeout : Nat) : Nat → List Outcome → Final → F
 def sendUdp (packet : Bytes) (timeout retries : Nat) (outs : List Outcome) : Final :=
   loop packet timeout retries outs ⟨[], 0, 0, 0, .error .unbound⟩
 
+/-! ### a call abandoned by its caller
+
+  The task running `send_udp` is cancelled `cancelAt` ticks (and a half: never at the very instant
+  of another event) after it began — the caller's own `wait_for` deadline, `task.cancel()`.
+  `CancelledError` is raised inside `get_data`; the `finally` of `send_udp` closes the endpoint of the
+  attempt in flight.  The flag says whether the call was cancelled before it ended by itself. -/
+
+def loopCancel (packet : Bytes) (timeout cancelAt : Nat) : Nat → List Outcome → Final → Final × Bool
+  | 0, _, f => (f, false)
+  | retries + 1, outs, f =>
+    let o := outs.head?.getD .none
+    let f := { f with sends := f.sends ++ [packet], opened := f.opened + 1, closed := f.closed + 1 }
+    let dur := match attempt timeout o with
+      | some (_, d) => d
+      | Option.none => timeout
+    if cancelAt < f.elapsed + dur then ({ f with elapsed := cancelAt }, true)
+    else
+      match attempt timeout o with
+      | some (r, d) => ({ f with elapsed := f.elapsed + d, result := r }, false)
+      | Option.none =>
+        let f := { f with elapsed := f.elapsed + timeout }
+        if retries = 0 then ({ f with result := .error .timeout }, false)
+        else loopCancel packet timeout cancelAt retries outs.tail f
+
+def sendUdpCancel (packet : Bytes) (timeout retries : Nat) (outs : List Outcome) (cancelAt : Nat) : Final × Bool :=
+  loopCancel packet timeout cancelAt retries outs ⟨[], 0, 0, 0, .error .unbound⟩
+
 end Snmp.Udp
